@@ -188,7 +188,7 @@ Proof.
   assert (Ep3 : process_received w3 = (w3, ODone None)) by (unfold process_received; unfold NA in Na3; rewrite Na3; reflexivity).
   rewrite Ep3. unfold NA in Na3. rewrite Na3.
   destruct (Hd_service w3 (conj Hc3 Q3)) as [Ht3 Hmq3]. unfold service. rewrite Ht3, Hmq3, upd_sess_id, En3.
-  destruct (healthy_perform_core _ w3 Hc3 En3) as [w4 [E4 [Hc4 [R4 [N4 X4]]]]]. rewrite E4.
+  destruct (healthy_perform_core _ w3 Hc3 En3) as [w4 [E4 [Hc4 [R4 [N4 [X4 _]]]]]]. rewrite E4.
   destruct (X4 eq_refl) as [len S4]. cbn [step_key] in S4.
   (* the state after the step, explicitly *)
   assert (O4 : s_ob (w_sess w4) = with_ctl (s_ob (w_sess w)) []).
